@@ -52,7 +52,7 @@ var targets = []pkgConf{
 	{dir: "util/ioutil", chans: true},
 	{dir: "httpd", chans: true},
 	{dir: "logger", chans: true},
-	{dir: "util/osutil", vos: true, files: []string{"file.go"}},
+	{dir: "util/osutil", vos: true, chans: true, files: []string{"file.go"}}, // chans: a copy that uses goroutines of its own is explored (C18 S-copy)
 	{dir: "daemon", timersOnly: true},
 }
 
